@@ -74,6 +74,16 @@ fn ops_strategy(limbs: usize) -> BoxedStrategy<OpsCase> {
     (fe_strategy(limbs), fe_strategy(limbs), exp_strategy(), any::<u32>()).prop_map(|(a, b, exp, frob)| OpsCase { a, b, exp, frob }).boxed()
 }
 
+/// the result must also BE the canonical element for the crate's own equality and zero test
+/// (a value that is right modulo p but not reduced internally compares unequal to itself)
+fn canon<F: PF>(name: &str, got: &F, want: &Z) -> Result<(), String> {
+    let w: F = F::from_repr(repr_of::<F>(want)).map_err(|_| "harness: expected value not reduced".to_string())?;
+    if *got != w || got.is_zero() != want.is_zero() {
+        return Err(format!("{}::{}: the result has the value 0x{:x} but the crate's own == / is_zero() do not treat it as that element (non-canonical internal representation)", F::NAME, name, want));
+    }
+    Ok(())
+}
+
 fn ck(name: &str, fname: &str, got: &Z, want: &Z, a: &Z, b: &Z) -> Result<(), String> {
     if got != want {
         Err(format!("{}::{}: crate 0x{:x}, integers mod p give 0x{:x} (a=0x{:x}, b=0x{:x})", fname, name, got, want, a, b))
@@ -115,21 +125,27 @@ macro_rules! concrete_ops {
     let mut t = a;
     cr("add_assign", || t.add_assign(&b))?;
     ck("add_assign", n, &val(&t), &((&az + &bz) % p), &az, &bz)?;
+    canon::<F>("add_assign", &t, &((&az + &bz) % p))?;
     let mut t = a;
     cr("sub_assign", || t.sub_assign(&b))?;
     ck("sub_assign", n, &val(&t), &((p + &az - &bz) % p), &az, &bz)?;
+    canon::<F>("sub_assign", &t, &((p + &az - &bz) % p))?;
     let mut t = a;
     cr("negate", || t.negate())?;
     ck("negate", n, &val(&t), &((p - &az) % p), &az, &bz)?;
+    canon::<F>("negate", &t, &((p - &az) % p))?;
     let mut t = a;
     cr("double", || t.double())?;
     ck("double", n, &val(&t), &((&az + &az) % p), &az, &bz)?;
+    canon::<F>("double", &t, &((&az + &az) % p))?;
     let mut t = a;
     cr("mul_assign", || t.mul_assign(&b))?;
     ck("mul_assign", n, &val(&t), &((&az * &bz) % p), &az, &bz)?;
+    canon::<F>("mul_assign", &t, &((&az * &bz) % p))?;
     let mut t = a;
     cr("square", || t.square())?;
     ck("square", n, &val(&t), &((&az * &az) % p), &az, &bz)?;
+    canon::<F>("square", &t, &((&az * &az) % p))?;
     // inverse: None iff zero
     let inv = cr("inverse", || a.inverse())?;
     match inv {
@@ -152,10 +168,12 @@ macro_rules! concrete_ops {
     info.class(format!("exp-limbs:{}", c.exp.len()));
     let pw = cr("pow", || a.pow(&c.exp))?;
     ck("pow", n, &val(&pw), &az.modpow(&ez, p), &az, &ez)?;
+    canon::<F>("pow", &pw, &az.modpow(&ez, p))?;
     // frobenius on a prime field is the identity
     let mut t = a;
     cr("frobenius_map", || t.frobenius_map(c.frob as usize))?;
     ck("frobenius_map", n, &val(&t), &az, &az, &bz)?;
+    canon::<F>("frobenius_map", &t, &az)?;
     // zero test, equality, order
     if cr("is_zero", || a.is_zero())? != az.is_zero() {
         return Err(format!("{}::is_zero(0x{:x}) wrong", n, az));
